@@ -1,12 +1,158 @@
 import Driver.Util
-open Drv
+import Faithful.Lib.CarInfo
+import Faithful.Lib.EpochLookup
+open Drv CI Car IndexAll EpochLookup
 
+/-!
+Model side of the C03 line protocol (see /verif/harness/tree/c03_test.go for the op lines).
+Every answer is computed with the definitions the theorems of Faithful/Properties/C03.lean are about:
+`getBlockA` / `getTxA` / `multiGetBlockA` / `multiGetTxA` (= the list versions by `getBlockA_eq`, `getTxA_eq`,
+`multiGetBlockA_eq`, `multiGetTxA_eq`), `getNodeByCidA`, `lookupA`, `gsfa`.
+-/
 namespace DrvC03
 
-/-- model side of the C03 line protocol: one answer line per op line -/
+structure EpSt where
+  ep : EpA
+  /-- transactions of the epoch, newest first (from the `tx` lines, which come in archive order) -/
+  txs : List Tx := []
+  gsfa : Option AddrIndex := none
+
+structure St where
+  eps : List EpSt := []
+  loaded : List Nat := []
+
+def St.find (st : St) (n : Nat) : Option EpSt := st.eps.find? (·.ep.num == n)
+
+def St.update (st : St) (e : EpSt) : St :=
+  { st with eps := e :: st.eps.filter (·.ep.num != e.ep.num) }
+
+/-- the loaded epochs, in the order of the server line -/
+def St.loadedEps (st : St) : List EpSt := st.loaded.filterMap st.find
+
+def ixWord : Look → String
+  | .found _ => "found"
+  | .notFound => "notfound"
+  | _ => "err"
+
+def dedupAppend (acc : List Bytes) (xs : List Bytes) : List Bytes :=
+  xs.foldl (fun a x => if a.contains x then a else a ++ [x]) acc
+
+/-- the address index of an epoch as `index gsfa` builds it: one entry per address mentioned by any transaction;
+    the value is the address's ordinal, the list behind it holds the transactions that mention the address, newest first -/
+def buildGsfa (e : EpSt) (numBuckets : Nat) : Except BuildErr (AddrIndex × Nat) :=
+  let addrs : List Bytes := e.txs.reverse.foldl (fun a t => dedupAppend a t.mentions) []
+  let arr := addrs.toArray
+  let kvs : List KV := (List.range arr.size).map fun i => ⟨arr.getD i [], B.le 9 i⟩
+  match buildA HF.real 9 (numBuckets * Generated.targetEntriesPerBucket) [] kvs with
+  | .error err => .error err
+  | .ok ix =>
+    let log := fun (v : Bytes) =>
+      let a := arr.getD (B.unle v) []
+      e.txs.filter fun t => t.mentions.contains a
+    .ok (⟨ix, log⟩, arr.size)
+
+def numArg (w : List String) (key : String) (dflt : Nat) : Nat :=
+  match w.find? (fun x => x.startsWith (key ++ "=")) with
+  | some x => ((x.drop (key.length + 1)).toString).toNat!
+  | none => dflt
+
+def slotAns (s : Nat) : Ans (Node × Nat) → String
+  | .ok (_, slot) => if slot = s then s!"ok:{slot}" else s!"WRONG:{slot}"
+  | .notFound => "notfound"
+  | .epochNotAvailable => "epoch-not-available"
+  | .err => "err"
+
+def sigAns (g : Bytes) : Ans (Node × Bytes) → String
+  | .ok (_, sig) => if sig = g then "ok" else "WRONG:" ++ hex (sig.take 8)
+  | .notFound => "notfound"
+  | .epochNotAvailable => "epoch-not-available"
+  | .err => "err"
+
+def step (st : St) (l : String) : St × String :=
+  match words l with
+  | "gen" :: _ => (st, "gen ok")
+  | ["car", en, h] =>
+    let bytes := unhex h
+    match Car.parse bytes with
+    | none => (st, "car parse-error")
+    | some (hdr, sl) =>
+      let secs := sl.map (·.1)
+      let infos := secs.map fun s => CarInfo.info s.data
+      let nb := (infos.filter fun i => match i with | .block .. => true | _ => false).length
+      let nt := (infos.filter fun i => match i with | .tx .. => true | _ => false).length
+      match IndexAll.build HF.real CarInfo.info hdr secs secs.length nb nt with
+      | .error e => (st, s!"car hdr={hdr} objs={secs.length} blocks={nb} txs={nt} build=err {repr e}")
+      | .ok ix => (st.update { ep := ⟨en.toNat!, ix, bytes.toArray⟩ },
+          s!"car hdr={hdr} objs={secs.length} blocks={nb} txs={nt} build=ok")
+  | "tx" :: en :: sig :: rest =>
+    match st.find en.toNat! with
+    | none => (st, "noepoch")
+    | some e =>
+      let addrs := match rest with
+        | [a] => (a.splitOn ",").map unhex
+        | _ => []
+      (st.update { e with txs := ⟨unhex sig, addrs⟩ :: e.txs }, "ok")
+  | "gsfa" :: en :: rest =>
+    match st.find en.toNat! with
+    | none => (st, "noepoch")
+    | some e =>
+      match buildGsfa e (numArg rest "buckets" 100) with
+      | .error err => (st, s!"gsfa build=err {repr err}")
+      | .ok (g, n) => (st.update { e with gsfa := some g }, s!"gsfa addrs={n} build=ok")
+  | "server" :: es :: _ =>
+    let ns := (es.splitOn ",").map String.toNat!
+    if ns.all (fun n => (st.find n).isSome) then ({ st with loaded := ns }, "ok") else (st, "unknown-epoch")
+  | ["slot", "epoch", en, n] =>
+    let s := n.toNat!
+    match (if st.loaded.contains en.toNat! then st.find en.toNat! else none) with
+    | none => (st, "epoch-not-loaded")
+    | some e =>
+      (st, s!"ix={ixWord (findCidFromSlot HF.real e.ep.ix s)} {slotAns s (getBlockA HF.real CarInfo.info e.ep.ix e.ep.car s)}")
+  | ["slot", _, n] =>
+    let s := n.toNat!
+    (st, slotAns s (multiGetBlockA HF.real CarInfo.info (st.loadedEps.map (·.ep)) s))
+  | ["sig", "epoch", en, h] =>
+    let g := unhex h
+    match (if st.loaded.contains en.toNat! then st.find en.toNat! else none) with
+    | none => (st, "epoch-not-loaded")
+    | some e =>
+      (st, s!"ix={ixWord (findCidFromSig HF.real e.ep.ix g)} {sigAns g (getTxA HF.real CarInfo.info e.ep.ix e.ep.car g)}")
+  | ["sig", _, h] =>
+    let g := unhex h
+    (st, sigAns g (multiGetTxA HF.real CarInfo.info (st.loadedEps.map (·.ep)) g))
+  | ["cid", "epoch", en, h] =>
+    let c := unhex h
+    match (if st.loaded.contains en.toNat! then st.find en.toNat! else none) with
+    | none => (st, "epoch-not-loaded")
+    | some e =>
+      let ixw := ixWord (lookupA HF.real e.ep.ix.cidIx c)
+      match getNodeByCidA HF.real e.ep.ix e.ep.car c with
+      | .ok d => (st, s!"ix={ixw} ok:{d.length}:{hexNat (H.xxhash64 d).toNat 16}")
+      | .notFound => (st, s!"ix={ixw} notfound")
+      | .err => (st, s!"ix={ixw} err")
+  | ["addr", "ix", en, h] =>
+    match (st.find en.toNat!).bind (·.gsfa) with
+    | none => (st, "unknown-epoch")
+    | some g => (st, s!"ix={ixWord (lookupA HF.real g.ix (unhex h))}")
+  | ["addr", "rpc", h] =>
+    let a := unhex h
+    -- most recent epoch first (getGsfaReadersInEpochDescendingOrder)
+    let gs := ((st.loadedEps.mergeSort fun x y => decide (x.ep.num ≥ y.ep.num)).filterMap (·.gsfa))
+    match gsfa HF.real gs a 1000 with
+    | .ok txs =>
+      let wrong := (txs.filter fun t => !t.mentions.contains a).length
+      if wrong > 0 then (st, s!"WRONG:{wrong}/{txs.length}") else
+      let sum := txs.foldl (fun acc t => (acc + (H.xxhash64 t.sig).toNat) % 2^64) 0
+      (st, s!"n={txs.length} h={hexNat sum 16}")
+    | _ => (st, "err")
+  | _ => (st, "bad-op")
+
 def run (lines : Array String) : IO Unit := do
   let out ← IO.getStdout
-  for _ in lines do
-    out.putStrLn "unimplemented"
+  let mut st : St := {}
+  for l in lines do
+    let (st', o) := step st l
+    st := st'
+    out.putStrLn o
 
 end DrvC03
